@@ -92,6 +92,10 @@ func init() {
 			}
 
 			outer := a.runtime.scope
+			if verifOn {
+				vt(a.runtime, "include.begin", t.Name)
+				defer func() { vt(a.runtime, "include.end") }()
+			}
 			a.runtime.newScope()
 			defer func() { a.runtime.scope = outer }()
 
@@ -120,6 +124,10 @@ func init() {
 			}
 
 			outer := a.runtime.scope
+			if verifOn {
+				vt(a.runtime, "include.begin", t.Name)
+				defer func() { vt(a.runtime, "include.end") }()
+			}
 			a.runtime.newScope()
 			defer func() { a.runtime.scope = outer }()
 
